@@ -33,6 +33,7 @@ type c28Scenario struct {
 func genC28(seed uint64, tier string) any {
 	r := kit.NewRng(seed)
 	base := genC24(r.Uint64(), tier).(*c24Scenario)
+	base.Client.Curves, base.Server.Curves = stripHybrid(base.Client.Curves), stripHybrid(base.Server.Curves) // ML-KEM reads system entropy
 	sc := &c28Scenario{Seed: seed, Client: base.Client, Server: base.Server, Net: base.Net}
 	sc.Client.Cache = r.Chance(4, 5)
 	sc.Resume = sc.Client.Cache && r.Chance(1, 2)
